@@ -342,6 +342,7 @@ class Explorer:
         self.stop = stop or set()
         self.max_runs = max_runs
         self.max_steps = max_steps
+        self.force_opaque: set[str] = set()
         self.entered: set[str] = set()  # fq of every repo function interpreted on some path
         self.fallbacks: set[str] = set()  # functions treated as uninterpreted because their body could not be interpreted on symbolic arguments
 
